@@ -37,6 +37,14 @@ def _job(t, final='succeeded'):
 
 _L = {'op': 'loop'}
 
+
+def _restart_case(cid, graph, seed, fcp=6, rh=1):
+    """adaptive run with one 'stop --now' at a random moment followed by a restart"""
+    c = _case(cid, graph, fcp=fcp, rh=rh, seed=seed, kind='cmdr')
+    c['policy'].update({'cmds': ['stop_now'], 'p_cmd': 0.03, 'restarts': 1})
+    return c
+
+
 # the two minimal histories of the recorded defect (also the witnesses in findings/C45.json)
 WITNESS_WARM = _case('c45-warm-first-child', '        P1 = """\n a[^+P1] => c\n a\n"""', opts={'startcp': '2'})
 WITNESS_DONE = _case(
@@ -68,9 +76,11 @@ class C45(SchedProp):
         'current code (abs_satisfies_all_counterexample, kernel-checked; replayed on the real scheduler: finding '
         'abs-first-child-unavailable, repair findings/C45-fix-1.diff): spawn_on_output skips the update of the pooled '
         'instances when the first child is before the start point of a warm start, already ran to completion, or was '
-        'removed by a suicide trigger. Missing in Sched v1, hence not stated: restart (reload of abs_outputs_done from the '
-        'absolute_outputs table, load_abs_outputs_for_restart) - "including instances spawned after a restart" is covered '
-        'neither by a theorem nor by the correspondence')
+        'removed by a suicide trigger. Missing in Sched v1, hence NOT stated as a theorem: restart (reload of '
+        'abs_outputs_done from the absolute_outputs table, load_abs_outputs_for_restart). "including instances spawned '
+        'after a restart" is only judged on the real scheduler: every third case (kind cmdr) stops the scheduler at a random '
+        'moment and restarts it; the model is compared on the prefix before the stop command and the judge runs over the '
+        'whole trace including the restarted scheduler')
     technique = ('inductive invariant with a stable exception set (generic Frame over the Sched primitives, custom '
                  'spawn_on_output step with an exemption that shrinks child by child) + kernel-checked counterexample + trace '
                  'correspondence with the real Scheduler + judge on completions and prerequisite atoms')
@@ -79,20 +89,83 @@ class C45(SchedProp):
     rule = ('generated integer-cycling workflows (2-6 tasks, 1-3 recurrences, AND/OR triggers, inter-cycle offsets, optional '
             'and custom outputs, suicide triggers, retries) with an absolute trigger (foo[^], foo[^+P1], foo[<point>]) offered '
             'at every second trigger site and 30% warm starts, driven through the real Scheduler by a seeded adaptive '
-            'schedule ("any" kind: failures, missing outputs, duplicate/stale/out-of-order messages); plus the two minimal '
-            'histories of the recorded defect; non-trivial = distinct (kind, absolute-output completed or not, ending, '
+            'schedule ("any" kind: failures, missing outputs, duplicate/stale/out-of-order messages; "cmdr" kind: one stop '
+            '--now / clean stop at a random moment followed by a restart); plus the three minimal histories of the recorded '
+            'defect and five stop+restart runs of "a[^] & b[-P1] => c"; non-trivial = distinct (kind, absolute-output completed or not, ending, '
             'launch-count) class per distinct case')
-    gen_opts = {'p_abs': 0.5, 'abs_forms': ['^', '^', '^+P1', 'icp+1'], 'p_startcp': 0.3, 'p_intercycle': 0.3}
-    n_quick = 160
+    gen_opts = {'p_abs': 0.5, 'abs_forms': ['^', '^', '^+P1', 'icp+1'], 'p_startcp': 0.3, 'p_intercycle': 0.3,
+                # kind 'cmdr' only: one stop (now / clean) at a random moment, then a restart
+                'cmds': ['stop_now', 'stop_clean'], 'p_cmd': 0.04, 'restarts': [1]}
+    n_thorough = 1500
+    n_quick = 72
 
     def corpus(self):
         return [
             WITNESS_WARM, WITNESS_DONE,
+            _case('c45-suicide-first-child', '        P1 = """\n a[^] => c\n a\n b:fail? => !c\n b?\n"""', fcp=3, rh=2,
+                  ops=[_L] + _job('1/b', 'failed') + [_L, _L] + _job('1/a') + [_L, _L, _L]),
+            # stop + restart after the absolute output completed, dependents spawned after the restart
+            *[_restart_case(f'c45-restart-and-{k}', '        P1 = """\n a[^] & b[-P1] => c\n a\n b\n"""', k)
+              for k in (0, 3, 4, 6, 9)],
             _case('c45-plain', '        P1 = """\n a[^] => c\n a\n"""'),
             _case('c45-lit', '        P1 = """\n a[2] => c\n a\n"""', rh=3),
             _case('c45-and', '        P1 = """\n a[^] & b[-P1] => c\n a\n b\n"""', fcp=5, rh=1),
             _case('c45-out', '        P1 = """\n a[^]:start & b => c\n a\n"""', fcp=5, rh=0),
         ]
+
+    # every third case stops the scheduler (stop --now / clean stop) at a random moment, restarts it and goes on:
+    # the Sched v1 model is compared on the prefix before the stop command, the judge sees the whole trace
+    kinds = ('complete', 'any', 'cmdr')
+
+    # a restart brings up a second Scheduler (server threads, barrier with a 10 s timeout, shutdown under a 20 s
+    # timeout): on a loaded machine these time out.  That is the environment, never a verdict: retry alone, then Infra.
+    _INFRA = ('BrokenBarrierError', 'TimeoutError', 'CancelledError', 'Address already in use')
+
+    def _is_infra(self, raw):
+        return 'error' in raw and raw.get('stage') == 'run' and any(k in raw['error'] for k in self._INFRA)
+
+    def impl_batch(self, inputs):
+        from core import Infra
+        from prop import run_workers
+        res = run_workers(inputs, self.workers)
+        for attempt in range(2):
+            bad = [k for k, r in enumerate(res) if self._is_infra(r)]
+            if not bad:
+                break
+            again = run_workers([inputs[k] for k in bad], 2)
+            for k, r in zip(bad, again):
+                res[k] = r
+        still = [r for r in res if self._is_infra(r)]
+        if still:
+            raise Infra('scheduler restart timed out repeatedly (machine overloaded?): '
+                        + still[0]['error'].strip().splitlines()[-1][:200])
+        return res
+
+    @staticmethod
+    def _cut(ops):
+        return next((k for k, op in enumerate(ops) if op['op'] in ('cmd', 'restart')), None)
+
+    def driver_input(self, inp, raw):
+        d = super().driver_input(inp, raw)
+        if 'crash' in d:
+            return d
+        cut = self._cut(raw['ops'])
+        if cut is not None:
+            d['ops'] = raw['ops'][:cut]
+            d['full_ops'] = raw['ops']
+            d['full_obs'] = raw['obs']
+        return d
+
+    def driver_obs(self, inp, raw):
+        if 'error' in raw:
+            return super().driver_obs(inp, raw)
+        cut = self._cut(raw['ops'])
+        return raw['obs'] if cut is None else raw['obs'][:cut + 1]
+
+    def _replay_input(self, inp, driver_inp):
+        d = dict(inp)
+        d['ops'] = driver_inp.get('full_ops') or driver_inp['ops']
+        return d
 
     def classify(self, inp, obs):
         base = super().classify(inp, obs)
